@@ -1,0 +1,12 @@
+//go:build verif
+
+// Contracts for the zone-file parser (scan.go, generate.go).  Comment-only file.
+
+package dns
+
+// TTL arithmetic never wraps around: a value that does not fit 32 bits is rejected, not reduced modulo 2^64
+//@ func stringToTTL [C06 C07]
+//@   opt nowrap
+//@   ensures ok: ret1 ==> ret0 <= 4294967295
+//@   loop 1 invariant s <= 4294967295 && i <= 4294967295
+//@   pure
